@@ -21,7 +21,11 @@ EXPLANATION = (
     "tokens: every operator token is stripped before float(), d->e, the no-bound spellings keep the default -1, tmin/tmax feed temp_min/"
     "temp_max respectively; UCLCHEM FREEZE forces the window (0, 30) -- all parsers are read in their folded form (pymodel.folded: helpers put back, class-level "
     "tables in place, table-driven setattr dispatch resolved); R5 the default duplicate search compares the reactions themselves (window included); "
-    "R6 every reaction of the list contributes its terms to the equations unconditionally (shared with C01.R2/R3).")
+    "R6 every reaction of the list contributes its terms to the equations unconditionally (shared with C01.R2/R3); "
+    "R7 the window survives the package's own text formats: Reaction.__format__ writes temp_min / temp_max of every format a reaction class reads back "
+    "with absolute precision (fixed point / integer / repr), never with fewer than 17 significant digits in exponent or general notation "
+    "(export -> render would move the bound of a piecewise fit).  R4 also: a regular expression that picks the number out of a KROME limit "
+    "(found by role: applied to a piece of a field of the line, result converted by float()) admits e/E/d/D and both exponent signs unless it is anchored.")
 ASSUMPTIONS = [
     "evaluation at boundary temperatures follows from the C operators >= and < once the guard text is as stated",
     "whether a database's `.LE.` should have been inclusive is not decided",
@@ -47,6 +51,58 @@ UCL = "naunet/reactions/uclchemreaction.py"
 KEEP = ("_create_species",)        # helpers the rules treat as primitives when a parser is read in its folded form (pymodel.folded)
 
 
+def _parser(pkg, cls, meth="_parse_string"):
+    """The parser `cls.meth` in its folded form (pymodel.folded) with, in addition, the membership tests `x in TABLE` / `x not in TABLE`
+    on a module-level literal table (normalize.module_tables: bound once, never re-bound or edited in its module) spelled with the
+    literal: a token list moved to the top of the module reads like the list written in place.  Only the membership read is replaced
+    (the object does not escape there); a name the function binds itself is not a module-level read."""
+    import copy
+    from ..normalize import _DictTable
+    cache = pkg.__dict__.setdefault("_c06_parsers", {})
+    if (cls, meth) in cache:
+        return cache[(cls, meth)]
+    fn = pkg.folded(cls, meth, keep=KEEP)
+    # a local bound ONCE, to a constant (the parameter of a helper that was put back: `attribute = "temp_min"`), is that constant
+    # where it is read; setattr / getattr on it are then plain attribute accesses (fold_static)
+    stores = {}
+    for n in ast.walk(fn):
+        if isinstance(n, ast.Name) and isinstance(n.ctx, (ast.Store, ast.Del)):
+            stores[n.id] = stores.get(n.id, 0) + 1
+    params = {a.arg for n in ast.walk(fn) if isinstance(n, ast.arguments) for a in n.posonlyargs + n.args + n.kwonlyargs}
+    once = {st.targets[0].id: st.value for st in ast.walk(fn) if isinstance(st, ast.Assign) and len(st.targets) == 1 and isinstance(st.targets[0], ast.Name)
+            and isinstance(st.value, ast.Constant) and isinstance(st.value.value, str) and stores.get(st.targets[0].id) == 1 and st.targets[0].id not in params}
+    if once and any(isinstance(c, ast.Call) and isinstance(c.func, ast.Name) and c.func.id in ("setattr", "getattr") and len(c.args) >= 2 and isinstance(c.args[1], ast.Name)
+                    and c.args[1].id in once for c in ast.walk(fn)):
+        from ..normalize import _Subst, fold_static
+        fn = copy.deepcopy(fn)
+        fn.body = [_Subst(dict(once)).visit(st) for st in fn.body]
+        fn = fold_static(ast.fix_missing_locations(fn))
+    # the tables of the modules the statements can come from: the classes of the MRO (helpers are put back from there); a name
+    # that means different tables in two of them is left alone
+    tabs, clash = {}, set()
+    for c in pkg.mro(cls):
+        ci = pkg.classes.get(c)
+        for k, v in (pkg.module_tables(ci.file) if ci is not None else {}).items():
+            if k in tabs and ast.dump(tabs[k]) != ast.dump(v):
+                clash.add(k)
+            tabs.setdefault(k, v)
+    own = {n.id for n in ast.walk(fn) if isinstance(n, ast.Name) and isinstance(n.ctx, (ast.Store, ast.Del))} | {a.arg for n in ast.walk(fn) if isinstance(n, ast.arguments) for a in n.posonlyargs + n.args + n.kwonlyargs}
+    tabs = {k: v for k, v in tabs.items() if k not in clash and k not in own}
+    if tabs and any(isinstance(n, ast.Name) and n.id in tabs for n in ast.walk(fn)):
+        class M(ast.NodeTransformer):
+            def visit_Compare(self, n):
+                self.generic_visit(n)
+                for i, (op, c) in enumerate(zip(n.ops, n.comparators)):
+                    if isinstance(op, (ast.In, ast.NotIn)) and isinstance(c, ast.Name) and c.id in tabs:
+                        t = tabs[c.id]
+                        elts = [e.elts[0] for e in t.elts] if isinstance(t, _DictTable) else t.elts
+                        n.comparators[i] = ast.copy_location(ast.Tuple(elts=[copy.deepcopy(e) for e in elts], ctx=ast.Load()), c)
+                return n
+        fn = ast.fix_missing_locations(M().visit(copy.deepcopy(fn)))
+    cache[(cls, meth)] = fn
+    return fn
+
+
 def check(ctx):
     _r1(ctx)
     _r2(ctx)
@@ -58,6 +114,118 @@ def check(ctx):
     from ..odemodel import model as odemodel
     from .c01 import reaction_sites
     reaction_sites(ctx, odemodel(ctx.tree), "R6", "R6")
+    _r7(ctx)
+
+
+_SPEC = re.compile(r"^(?:.?[<>=^])?[-+ ]?z?#?0?(?P<w>\d+)?[,_]?(?:\.(?P<p>\d+))?(?P<t>[a-zA-Z%])?$")
+
+
+def _r7(ctx):
+    """The window a reaction carries survives the package's own text formats: `Network.export()` writes the reactions with
+    Reaction.__format__(<format>) and `naunet render` reads them back with the parser of that format, so the text written for
+    temp_min / temp_max must give the same bound back through float().  Decided as a necessary condition on the format
+    specification: a bound that is a whole number of kelvin (every bound of every database) is written with ABSOLUTE precision
+    (fixed point f / F, an integer d, or str()/repr()), never with a RELATIVE one (e / E / g / G / n with fewer than 17 significant
+    digits rounds 1160450 to 1.16e+06: the two pieces of a fit that meet there are then both active, or neither, between the rounded
+    and the declared bound).  The arms are found by role: the value returned by Reaction.__format__ under `form == <the format
+    name of a reaction class>` (helpers and module-level formatting functions read as the expressions they return)."""
+    pkg = package(ctx.tree)
+    RF = pkg.cls("Reaction").file
+    pkg.method("Reaction", "__format__")
+    fn = pkg.expanded("Reaction", "__format__")
+    ctx.saw(RF, "Reaction.__format__")
+    W = (RF, fn.lineno)
+    if len(fn.args.args) != 2:
+        ctx.unrec("R7", "writer", W, "Reaction.__format__ does not take (self, <format name>)")
+        return
+    FORM, SELFP = ("param", fn.args.args[1].arg), ("param", fn.args.args[0].arg)
+
+    def fres(name):
+        f = pkg.functions.get((RF, name))
+        imp = pkg.imports.get(RF, {}).get(name)
+        if f is None and imp and imp[0].startswith(".") and imp[1]:
+            import os
+            base = os.path.dirname(RF)
+            for _ in range(len(imp[0]) - len(imp[0].lstrip(".")) - 1):
+                base = os.path.dirname(base)
+            mod = imp[0].lstrip(".")
+            f = pkg.functions.get((os.path.join(base, *mod.split(".")) + ".py", imp[1])) if mod else None
+        return f
+    fl = Flow(fn, RF, resolver=lambda name: pkg.resolve("Reaction", name)[1], func_resolver=fres)
+    rets = [f for f in fl.facts if f.kind == "return"]
+    if len(rets) != 1 or rets[0].value is None:
+        ctx.unrec("R7", "writer", W, f"expected one return in Reaction.__format__, found {len(rets)}")
+        return
+    v = simp(rets[0].value)
+    # the formats somebody reads back: the `format` name of the reaction classes
+    readers = {}
+    for c in ["Reaction"] + pkg.subclasses("Reaction"):
+        ci = pkg.classes.get(c)
+        node = ci.attrs.get("format") if ci is not None else None
+        if isinstance(node, ast.Constant) and isinstance(node.value, str):
+            readers.setdefault(node.value, c)
+    native = [k for k, c in readers.items() if c == "Reaction"]
+    tests = {x for x in walk(v) if isinstance(x, tuple) and len(x) == 3 and x[0] == "cmp" and x[1] == ("Eq",) and len(x[2]) == 2 and FORM in x[2]
+             and all(y == FORM or (y[0] == "const" and isinstance(y[1], str)) for y in x[2])}
+    named = {[y for y in x[2] if y != FORM][0][1] for x in tests}
+    if not native or native[0] not in named:
+        ctx.unrec("R7", "writer", W, "cannot find the arm of Reaction.__format__ that writes the package's own format (a test `form == <Reaction.format>`)")
+        return
+    n = 0
+    for F in sorted(named & set(readers)):
+        assume = {x: ([y for y in x[2] if y != FORM][0][1] == F) for x in tests}
+        assume[FORM] = True
+        arm = simp(peval(v, assume))
+        for attr in ("temp_min", "temp_max"):
+            A = ("attr", SELFP, attr)
+            key = f"{F}:{attr} written"
+            if not any(x == A for x in walk(arm)):
+                if F in native:
+                    ctx.unrec("R7", key, (RF, rets[0].line), f"cannot find where the {F!r} arm writes self.{attr}")
+                continue
+            def is_fmt(x):
+                return isinstance(x, tuple) and len(x) == 4 and x[0] == "fmt" and any(y == A for y in walk(x[1]))
+            # the innermost format specification around the attribute (a formatted piece pasted into a larger f-string is text)
+            fmts = [x for x in walk(arm) if is_fmt(x) and not any(is_fmt(y) for y in walk(x[1]))]
+            def printed(x):
+                """occurrences of the attribute that can reach the text: outside format specifications' values and outside the
+                conditions that choose between texts"""
+                if x == A:
+                    return 1
+                if not isinstance(x, tuple) or not x or x in fmts:
+                    return 0
+                return sum(printed(y) for i_, y in enumerate(x) if isinstance(y, tuple) and not (x[0] in ("phi", "ifexp") and i_ == 1))
+            loose = printed(arm)
+            if not fmts or loose > 0:
+                ctx.unrec("R7", key, (RF, rets[0].line), f"self.{attr} reaches the text of the {F!r} format in a way this rule cannot read (not a format specification)")
+                continue
+            for x in dict.fromkeys(fmts):
+                val, spec = simp(x[1]), x[2]
+                if val[0] == "call" and val[1] in (("global", "int"), ("global", "float")) and len(val[2]) == 1 and not val[3]:
+                    val = simp(val[2][0])          # int(x) keeps whole numbers
+                if isinstance(spec, tuple) and spec and spec[0] == "const":
+                    spec = spec[1]
+                m = _SPEC.match(spec) if isinstance(spec, str) else None
+                if val != A or not (spec is None or m):
+                    ctx.unrec("R7", key, (RF, rets[0].line), f"cannot read how self.{attr} is formatted: {show(x)[:80]}")
+                    continue
+                n += 1
+                t_, p_ = (m.group("t"), m.group("p")) if m else (None, None)
+                if t_ is None and p_ is not None:
+                    t_ = "g"                      # a precision without a type is the general format
+                if t_ in (None, "f", "F", "d", "s"):
+                    ctx.ok("R7", key, (RF, rets[0].line), f"{spec!r}: absolute precision, a whole number of kelvin is read back unchanged")
+                elif t_ in ("e", "E", "g", "G", "n"):
+                    digits = (int(p_) if p_ is not None else 6) + (1 if t_ in "eE" else 0)
+                    digits = max(digits, 1)
+                    ctx.check(digits >= 17, "R7", key, (RF, rets[0].line),
+                              f"{spec!r} keeps {digits} significant digits" if digits >= 17 else
+                              f"the {F!r} format writes self.{attr} with {digits} significant digits ({spec!r}): a bound such as 1160450 K is read back as another number by "
+                              f"{readers[F]}._parse_string, so after export -> render the window guard differs from the declared window (adjacent pieces of a fit overlap or leave a gap)",
+                              expected="fixed-point / integer / repr", found=show(x)[:80])
+                else:
+                    ctx.unrec("R7", key, (RF, rets[0].line), f"format type {t_!r} of self.{attr} is not one this rule knows")
+    ctx.floor("R7", "window columns of the written formats", n, 2, W)
 
 
 def _r5(ctx):
@@ -91,12 +259,15 @@ def _r5(ctx):
             cands.append((v, lp.line))
     if not cands:
         # the dispatch may sit in a helper that could not be put back: the lists handed to helpers of the class
-        for f in fl.facts:
-            if f.kind == "call" and f.value is not None and f.value[0] == "meth":
-                for a in f.value[3]:
-                    v = walked(a)
-                    if by_mode(v) and v not in [c for c, _ in cands]:
-                        cands.append((v, f.line))
+        # (written as a statement or inside any expression: `groups = self._group(self._keys(mode))`)
+        vals = [(f.value, f.line) for f in fl.facts if f.value is not None] + [(a[0], a[3]) for al in fl.assigns.values() for a in al]
+        for val, line_ in vals:
+            for x in walk(val):
+                if isinstance(x, tuple) and len(x) == 5 and x[0] == "meth" and x[1] in (("param", "self"), ("param", "cls")):
+                    for a in x[3]:
+                        v = walked(a)
+                        if by_mode(v) and v not in [c for c, _ in cands]:
+                            cands.append((v, line_))
     W = (NF, fn.lineno)
     if not cands:
         ctx.unrec("R5", "default-mode comparison", W, "cannot find the per-mode list of compared objects (a sequence chosen by tests on `mode` that a loop walks)")
@@ -105,7 +276,21 @@ def _r5(ctx):
         if leaves["none"] is None:
             ctx.unrec("R5", "default-mode comparison", (NF, line), f"mode dispatch not recognised: {show(v)[:100]}")
             continue
-        ok = leaves["none"] == RL
+        from ..valueflow import as_map
+        leaf = strip_transparent(simp(leaves["none"]))
+        while leaf[0] == "copy":
+            leaf = strip_transparent(simp(leaf[1]))
+        mp = as_map(leaf) if leaf[0] == "comp" else None
+        if mp is not None and strip_transparent(simp(mp[2])) == RL and not mp[3] and mp[1] == mp[0]:
+            leaf = RL                                   # [r for r in self.reaction_list]: the reactions themselves
+        ok = leaf == RL
+        if not ok:
+            # understood and wrong: one key per reaction, derived from it, that is not the reaction and does not look at both bounds
+            derived = mp is not None and strip_transparent(simp(mp[2])) == RL and mp[1] != mp[0] and any(x == mp[0] for x in walk(mp[1])) \
+                and not all(any(x == ("attr", mp[0], a_) for x in walk(mp[1])) for a_ in ("temp_min", "temp_max"))
+            if not derived:
+                ctx.unrec("R5", "default-mode comparison", (NF, line), f"cannot see what the default mode compares: {show(leaf)[:100]}")
+                continue
         ctx.check(ok, "R5", "default-mode comparison", (NF, line),
                   "the default mode compares the reactions themselves (temperature window included)" if ok else
                   "the default mode does not compare the reactions themselves: reactions that differ only in their temperature window (the pieces of a "
@@ -113,10 +298,80 @@ def _r5(ctx):
     ctx.floor("R5", "default-mode comparison", len([o for o in ctx.obs if o.rule == "R5"]), 1)
 
 
+def _dataclass_methods(pkg, fl, v):
+    """`Rec(a, b).m()` -- Rec a plain @dataclass of the package (annotated fields in order, no __init__ / __post_init__ / properties
+    of its own named like a field), m a small loop-free method of it -- is the value m returns with self.<field> standing for the
+    constructor argument of that position (valueflow's inliner reads m; the fields are then put in).  Anything else is left."""
+    if not isinstance(v, tuple) or not v:
+        return v
+    v = tuple(_dataclass_methods(pkg, fl, x) if isinstance(x, tuple) else x for x in v)
+    if len(v) == 5 and v[0] == "meth" and isinstance(v[1], tuple) and len(v[1]) == 4 and v[1][0] == "call" and v[1][1][0] == "global" and v[1][1][1] in pkg.classes:
+        ci = pkg.classes[v[1][1][1]]
+        decs = {ast.unparse(d).split("(")[0] for d in ci.node.decorator_list}
+        fields = [st.target.id for st in ci.node.body if isinstance(st, ast.AnnAssign) and isinstance(st.target, ast.Name)]
+        callee = ci.methods.get(v[2])
+        args, kws = v[1][2], dict(v[1][3])
+        if decs & {"dataclass", "dataclasses.dataclass"} and not ci.bases and callee is not None and not callee.decorator_list and not ({"__init__", "__post_init__", "__getattr__", "__getattribute__"} & set(ci.methods)) \
+                and len(args) <= len(fields) and not any(a[0] == "star" for a in args) and all(k in fields[len(args):] for k in kws) and len(args) + len(kws) == len(fields):
+            given = dict(zip(fields, args))
+            given.update(kws)
+            inl = fl._inline(callee, v[3], dict(v[4]))
+            if inl is not None and not any(isinstance(x, tuple) and len(x) == 5 and x[0] == "meth" and x[1] == ("param", "self") for x in walk(inl)):
+                from ..valueflow import subst
+                out = simp(subst(inl, {("attr", ("param", "self"), f_): x for f_, x in given.items()}))
+                if not any(x == ("param", "self") for x in walk(out)):
+                    return out
+    return v
+
+
+def _guard_builders(ctx, pkg, fn):
+    """A helper of the class that _assign_rates calls (directly or through another helper) and that writes guard text (a piece
+    containing `Tgas`) may hand back an EMPTY guard only because the bounds are absent: an early `return ""` chosen by another
+    attribute of the reaction (its type, a flag) drops the window of a reaction that declares one -- the coefficient is then
+    assigned at every temperature.  Conditions that look at the bounds (or at nothing of the reaction) are not judged here."""
+    seen, todo = set(), [fn]
+    while todo:
+        f_ = todo.pop()
+        for c in ast.walk(f_):
+            if isinstance(c, ast.Call) and isinstance(c.func, ast.Attribute) and isinstance(c.func.value, ast.Name) and c.func.value.id in ("self", "cls", "TemplateLoader"):
+                _, callee = pkg.resolve("TemplateLoader", c.func.attr)
+                if callee is not None and callee is not fn and c.func.attr not in seen and len(seen) < 12:
+                    seen.add(c.func.attr)
+                    todo.append(callee)
+    for name in sorted(seen):
+        callee = pkg.resolve("TemplateLoader", name)[1]
+        try:
+            hf = Flow(callee, FILE, resolver=lambda nm: pkg.resolve("TemplateLoader", nm)[1])
+        except Exception:
+            continue
+
+        def texts(x):
+            return [y[1] for y in walk(x) if isinstance(y, tuple) and len(y) == 2 and y[0] == "const" and isinstance(y[1], str)]
+        if not any("Tgas" in t for f in hf.facts if f.value is not None for t in texts(simp(f.value))):
+            continue
+        params = {("param", a.arg) for a in callee.args.args}
+        for f in hf.facts:
+            if f.kind != "return" or f.value is None or f.loops:
+                continue
+            v = simp(f.value)
+            if not (v[0] == "const" and isinstance(v[1], str) and "Tgas" not in v[1]):
+                continue
+            for g_, pol in f.guards:
+                g_ = simp(g_)
+                attrs = {y[2] for y in walk(g_) if isinstance(y, tuple) and len(y) == 3 and y[0] == "attr" and y[1] in params} \
+                    | {y[2][1][1] for y in walk(g_) if isinstance(y, tuple) and len(y) == 4 and y[0] == "call" and y[1] in (("global", "getattr"), ("global", "hasattr")) and len(y[2]) >= 2
+                       and y[2][0] in params and y[2][1][0] == "const" and isinstance(y[2][1][1], str)}
+                if attrs and not (attrs & {"temp_min", "temp_max"}):
+                    ctx.bad("R1", f"{name}:empty guard", (FILE, f.line),
+                            f"the guard builder {name} returns the guard {v[1]!r} when `{show(g_)[:80]}` is {pol}: a reaction that declares a temperature window is then assigned "
+                            "at every temperature (the window is dropped for a reason other than an absent bound)", expected="an empty guard only when both bounds are <= 0", found=show(g_)[:100])
+
+
 def _r1(ctx):
     pkg = package(ctx.tree)
     fn = pkg.method("TemplateLoader", "_assign_rates")
     ctx.saw(FILE, "TemplateLoader._assign_rates")
+    _guard_builders(ctx, pkg, fn)
     # small loop-free helpers of the class (self._x(..)) are read as the expressions they return
     fl = Flow(fn, FILE, resolver=lambda name: pkg.resolve("TemplateLoader", name)[1])
     W = (FILE, fn.lineno)
@@ -129,6 +384,15 @@ def _r1(ctx):
     if v[0] == "comp" and len(v[3]) == 1:
         tg, it, ifs = v[3][0]
         elt0 = v[2]
+        # [g(s) for s in [f(x) for x in X]] is [g(f(x)) for x in X]: statements first collected as objects, then turned into text
+        from ..valueflow import subst as _subst
+        for _ in range(3):
+            inner = simp(it)
+            if not (tg is not None and tg[0] == "bv" and inner[0] == "comp" and inner[1] in ("list", "gen") and len(inner[3]) == 1 and not inner[3][0][2] and not ifs):
+                break
+            elt0 = _subst(elt0, {tg: inner[2]})
+            tg, it, ifs = inner[3][0]
+        elt0 = _dataclass_methods(pkg, fl, elt0)
     else:
         # the same list written as `out = []; for ..: <build the statement>; out.append(statement)`
         lb = loop_built_seq(fl, v[1]) if v[0] == "acc" else None
@@ -136,7 +400,13 @@ def _r1(ctx):
             ctx.unrec("R1", "_assign_rates:return", (FILE, rets[0].line), "returned value is not a single comprehension (or one-append-per-iteration loop) over the reactions")
             return
         it, ifs, elt0 = lb[0].iter, (), lb[1]
-    R = ("param", "reactions")
+    # the reaction list and the array symbol by ROLE: the parameters of the function (after self) that are, in the signature of the
+    # callers (`self._assign_rates(rate_sym, reactions, grains)`), the first and the second -- whatever they are called
+    pnames = [a.arg for a in fn.args.args if a.arg not in ("self", "cls")]
+    if len(pnames) < 2:
+        ctx.unrec("R1", "_assign_rates:signature", W, "expected (self, <array symbol>, <reactions>[, <grains>])")
+        return
+    R, SYM = ("param", pnames[1]), ("param", pnames[0])
     # the statements enumerate zip(guards, rate expressions), both position-preserving views of `reactions`
     import builtins
     import os
@@ -247,6 +517,9 @@ def _r1(ctx):
             return any(opaque(x) for x in b_[2])          # a visible re-ordering / selection / copy of its arguments
         return True
     b = match(("call", ("global", "enumerate"), (V("z"),), ()), it)
+    if not b and strip_transparent(simp(it))[0] == "call" and strip_transparent(simp(it))[1] == ("global", "zip") and not strip_transparent(simp(it))[3]:
+        # no counter at the top: the statements are zipped from lists that were numbered when they were built
+        b = {"z": strip_transparent(simp(it))}
     srcs = [x for a in seqs_of(b["z"]) for x in sources(a)] if b else []
     # a list built one entry per reaction whose entries are then overwritten in place: somebody else writes the guard / rate text
     for b_, _ in srcs:
@@ -264,6 +537,19 @@ def _r1(ctx):
                   "cannot see how the statements are paired with the reactions (expected enumerate(zip(guards, rates)) over views of `reactions`): " + show(it)[:160])
         return
     ok_it = all(b_ == R and not f_ for b_, f_ in srcs) and not ifs
+
+    def of_R(b_):
+        """R itself or a visible re-ordering / selection / slice of it"""
+        if b_ == R:
+            return True
+        if b_[0] == "call" and b_[1][0] == "global" and b_[2]:
+            return any(of_R(x) for x in b_[2])
+        return b_[0] == "sub" and of_R(b_[1])
+    if not ok_it and not all(of_R(b_) for b_, _ in srcs):
+        # views of something else than the reaction list (an attribute, another parameter): not traced back to `reactions`
+        ctx.unrec("R1", "_assign_rates:iteration", (FILE, rets[0].line), "the guards / rate expressions range over something this rule cannot trace back to the reaction list: "
+                  + ", ".join(sorted({show(b_)[:40] for b_, _ in srcs if not of_R(b_)}))[:160])
+        return
     ctx.check(ok_it, "R1", "_assign_rates:iteration", (FILE, rets[0].line),
               "statements are built over enumerate(zip(guards, rates)) where both are unfiltered one-to-one views of the same `reactions` list",
               found=show(it)[:200])
@@ -300,6 +586,14 @@ def _r1(ctx):
     def resolve(v_, depth=0):
         if not isinstance(v_, tuple) or not v_:
             return v_
+        # the pair (counter, entry) of an enumerate read by position; the entry of a list chosen by a condition
+        if v_[0] in ("item", "sub") and len(v_) == 3 and v_[2] in (0, 1, ("const", 0), ("const", 1)) and isinstance(v_[1], tuple) and len(v_[1]) == 3 and v_[1][0] == "elem":
+            e_ = strip_transparent(simp(v_[1][1]))
+            if e_[0] == "call" and e_[1] == ("global", "enumerate") and len(e_[2]) == 1 and not e_[3]:
+                first = v_[2] in (0, ("const", 0))
+                return resolve(("idx" if first else "elem", e_[2][0], v_[1][2]), depth)
+        if v_[0] == "elem" and len(v_) == 3 and isinstance(v_[1], tuple) and v_[1] and v_[1][0] in ("phi", "ifexp") and depth < 6:
+            return ("phi", v_[1][1], resolve(simp(("elem", v_[1][2], v_[2])), depth + 1), resolve(simp(("elem", v_[1][3], v_[2])), depth + 1))
         if v_[0] == "elem" and len(v_) == 3 and helped(v_[1]):
             return at(v_[1], v_[2], depth)
         if v_[0] == "idx" and len(v_) == 3 and all(b_ == R and not f_ for z in seqs_of(v_[1]) for b_, f_ in sources(z)):
@@ -323,6 +617,24 @@ def _r1(ctx):
     lo = ("cmp", ("Gt",), (("attr", r, "temp_min"), ("const", 0)))
     hi = ("cmp", ("Gt",), (("attr", r, "temp_max"), ("const", 0)))
     conds = {x for x in walk(elt) if isinstance(x, tuple) and x and x[0] == "cmp"}
+    # one spelling of a comparison of a bound with a number: the bound on the left (`0 < r.temp_min` is `r.temp_min > 0`)
+    FLIP = {"Lt": "Gt", "Gt": "Lt", "LtE": "GtE", "GtE": "LtE", "Eq": "Eq", "NotEq": "NotEq"}
+
+    def bound_test(c):
+        """(attribute, operator, number) of a comparison of a bound of reaction r with a numeric literal, else None"""
+        if len(c[1]) != 1 or len(c[2]) != 2 or c[1][0] not in FLIP:
+            return None
+        (a_, b_), op = c[2], c[1][0]
+        if b_[0] == "attr" and a_[0] == "const":
+            a_, b_, op = b_, a_, FLIP[op]
+        if a_[0] == "attr" and a_[1] == r and a_[2] in ("temp_min", "temp_max") and b_[0] == "const" and isinstance(b_[1], (int, float)) and not isinstance(b_[1], bool):
+            return a_[2], op, b_[1]
+        return None
+    assume_of = {}          # condition -> (which bound, truth value when the bound is present)
+    for c in conds:
+        bt = bound_test(c)
+        if bt is not None and bt[2] == 0 and bt[1] in ("Gt", "LtE"):
+            assume_of[c] = (bt[0], bt[1] == "Gt")
     def untraced(c):
         """c is the presence test itself on a comprehension variable (or an element the rule could not compose to this position):
         the right test, whose reaction was not traced -- not evidence of a wrong test"""
@@ -336,11 +648,19 @@ def _r1(ctx):
         ctx.unrec("R1", "_assign_rates:presence-tests", (FILE, rets[0].line), "cannot trace the condition(s) that shape the statement back to the reaction of the same position: "
                   + ", ".join(sorted(show(c) for c in loose))[:160])
         return
-    ctx.check(conds == {lo, hi}, "R1", "_assign_rates:presence-tests", (FILE, rets[0].line),
-              "a bound is present iff it is > 0 (temp_min > 0, temp_max > 0 of the same reaction); no other condition shapes the statement",
-              expected="r.temp_min > 0, r.temp_max > 0", found=", ".join(sorted(show(c) for c in conds)))
-    if conds != {lo, hi}:
+    # understood and wrong: a bound of the same reaction compared with a number in another way (>= 0, > 1, != 0); anything else that
+    # shapes the statement (a test on the text of the guard, on something the rule does not know) is not a verdict
+    wrong = [c for c in conds if c not in assume_of and bound_test(c) is not None]
+    other = [c for c in conds if c not in assume_of and bound_test(c) is None]
+    good = {w for w, _ in assume_of.values()} == {"temp_min", "temp_max"}
+    # (a bound that is never tested shows in the variants below: the statement does not change with it)
+    if wrong or not other:
+        ctx.check(not wrong, "R1", "_assign_rates:presence-tests", (FILE, rets[0].line),
+                  "a bound is present iff it is > 0 (temp_min > 0, temp_max > 0 of the same reaction); no other condition shapes the statement",
+                  expected="r.temp_min > 0, r.temp_max > 0", found=", ".join(sorted(show(c) for c in conds)))
+    if wrong:
         return
+    n_before = len(ctx.obs)
     idx = ("idx", R, L)
     want = {
         (False, False): r"^(?P<s>H\d+_)\[(?P<i>H\d+_)\] = (?P<e>H\d+_);$",
@@ -350,7 +670,7 @@ def _r1(ctx):
     }
     names = {(False, False): "no window", (True, False): "lower bound only", (False, True): "upper bound only", (True, True): "both bounds"}
     for has_lo, has_hi in itertools.product([False, True], repeat=2):
-        pe = peval(elt, {lo: has_lo, hi: has_hi})
+        pe = peval(elt, {c: ((has_lo if w == "temp_min" else has_hi) == pol) for c, (w, pol) in assume_of.items()})
         lw = lower(pe)
         key = f"_assign_rates:variant[{names[(has_lo, has_hi)]}]"
         m = re.match(want[(has_lo, has_hi)], lw.text)
@@ -358,21 +678,33 @@ def _r1(ctx):
             # the statement text could not be reconstructed (an opaque piece where the assignment should be): not a verdict on its shape
             ctx.unrec("R1", key, (FILE, rets[0].line), f"cannot reconstruct the text of the generated statement: {lw.text[:100]!r}")
             continue
+        def known_hole(x):
+            x = x[1] if x[0] == "fmt" else x
+            return x in (SYM, idx) or (x[0] == "attr" and x[1] == r) or (x[0] == "meth" and x[2] == "rateexpr") or x[0] == "const" \
+                or (x[0] in ("phi", "ifexp") and all(known_hole(y) for y in x[2:4]))
+        if not m and not all(known_hole(x) for x in lw.holes.values()):
+            ctx.unrec("R1", key, (FILE, rets[0].line), f"cannot reconstruct the text of the generated statement (a piece whose text is unknown): {lw.text[:100]!r}")
+            continue
         if not m:
             ctx.bad("R1", key, (FILE, rets[0].line), "generated statement has the wrong guard shape",
                     expected=want[(has_lo, has_hi)].replace("(?P<", "<").replace(r">H\d+_)", ">"), found=lw.text)
             continue
-        hv = {k: (x[1] if x[0] == "fmt" and x[2] is None else x) for k, x in lw.holes.items()}
+        # ({x} and {x:d} / %d of an integer counter print the same digits)
+        hv = {k: (x[1] if x[0] == "fmt" and (x[2] is None or (x[2] == "d" and x[1][0] == "idx")) else x) for k, x in lw.holes.items()}
         g = m.groupdict()
-        probs = []
-        if hv[g["s"]] != ("param", "rate_sym"):
-            probs.append(f"array symbol is {show(hv[g['s']])}")
+        probs, unread = [], []
+
+        def plain(x):
+            """built from constants, parameters, counters and attributes of reactions only: a value the rule reads completely"""
+            return all(not (isinstance(y, tuple) and y and y[0] in ("call", "meth", "unknown", "acc", "carried", "after", "sub", "item")) for y in walk(x))
+        if hv[g["s"]] != SYM:
+            (probs if hv[g["s"]][0] in ("const", "param") else unread).append(f"array symbol is {show(hv[g['s']])}")
         if hv[g["i"]] != idx:
-            probs.append(f"index is {show(hv[g['i']])}, not the enumerate counter of the same reaction")
+            (probs if plain(hv[g["i"]]) else unread).append(f"index is {show(hv[g['i']])}, not the enumerate counter of the same reaction")
         if "lo" in g and g.get("lo") and hv[g["lo"]] != ("attr", r, "temp_min"):
-            probs.append(f"lower bound is {show(hv[g['lo']])}")
+            (probs if plain(hv[g["lo"]]) else unread).append(f"lower bound is {show(hv[g['lo']])}")
         if "hi" in g and g.get("hi") and hv[g["hi"]] != ("attr", r, "temp_max"):
-            probs.append(f"upper bound is {show(hv[g['hi']])}")
+            (probs if plain(hv[g["hi"]]) else unread).append(f"upper bound is {show(hv[g['hi']])}")
         e = hv[g["e"]]
         # every alternative (with / without grains) must BE reac.rateexpr(..) of the same reaction: not a wrapper that may
         # substitute another text, not a copy of another coefficient
@@ -382,10 +714,21 @@ def _r1(ctx):
             return [x]
         lv = leaves(simp(e))
         if not lv or any(not (isinstance(x, tuple) and len(x) == 5 and x[0] == "meth" and x[2] == "rateexpr" and x[1] == r) for x in lv):
-            probs.append(f"rate expression is {show(e)[:80]}, not rateexpr() of the same reaction")
+            # understood and wrong: the rate text of a reaction (of this or another position) rewritten / replaced by a reference to
+            # another coefficient; not understood: a value in which no rateexpr() can be seen at all
+            seen_rate = any(isinstance(y, tuple) and len(y) == 5 and y[0] == "meth" and y[2] == "rateexpr" for x in lv for y in walk(x)) \
+                or any(y == SYM for x in lv for y in walk(x))
+            (probs if seen_rate else unread).append(f"rate expression is {show(e)[:80]}, not rateexpr() of the same reaction")
+        if unread and not probs:
+            ctx.unrec("R1", key, (FILE, rets[0].line), "cannot read a piece of the generated statement: " + "; ".join(unread)[:200])
+            continue
         ctx.check(not probs, "R1", key, (FILE, rets[0].line),
                   f"{names[(has_lo, has_hi)]}: {lw.text!r}" if not probs else "; ".join(probs),
                   found=lw.text)
+    if other and all(o.outcome == "DISCHARGED" for o in ctx.obs[n_before:]):
+        # every variant came out right although a condition the rule cannot read takes part: not a verdict
+        ctx.unrec("R1", "_assign_rates:presence-tests", (FILE, rets[0].line), "the statement is shaped by conditions this rule cannot read as `bound > 0`: "
+                  + ", ".join(sorted(show(c) for c in other))[:160])
 
 
 def _blocks(code):
@@ -645,28 +988,80 @@ def number_regex_profile(pattern: str):
     return prof
 
 
-def _krome_regex_extractor(ctx, pkg, fn):
-    """The window parser was rewritten around a number-extracting regular expression: decide the necessary condition
-    that the extractor admits every exponent spelling float() and the KROME syntax admit."""
+def _krome_regex_extractor(ctx, pkg, fn, fl):
+    """The window parser was rewritten around a number-extracting regular expression: decide the necessary condition that the
+    extractor admits every exponent spelling float() and the KROME syntax admit (letters e / E / d / D, exponent sign + and -).
+    The extractors are found by ROLE on the reconstructed values (valueflow): a regular expression applied (match / search /
+    fullmatch / findall) to a piece of a field of the line, whose result reaches float().  A pattern that is anchored at both ends
+    refuses what it does not admit (an error, no wrong window); one that is not silently cuts the number where it stops matching."""
     ci = pkg.cls("KROMEReaction")
-    pats = []
-    for n in ast.walk(ci.node):
-        if isinstance(n, ast.Call) and ast.unparse(n.func) in ("re.compile", "re.search", "re.match", "re.findall", "re.fullmatch") and n.args and isinstance(n.args[0], ast.Constant) \
-                and isinstance(n.args[0].value, str) and "\\d" in n.args[0].value and "idx_" not in n.args[0].value:
-            flags = " ".join(ast.unparse(a) for a in n.args[1:]) + " ".join(ast.unparse(k.value) for k in n.keywords)
-            pats.append((n.args[0].value, n.lineno, flags))
-    src = ast.unparse(fn)
-    used = [p for p in pats if p[0] not in (r"(\d\.?)d(\-?\d)",)]
-    if not used or "float(" not in src:
-        ctx.unrec("R4", "KROME window parser", (KROME, fn.lineno), "the tmin/tmax branches were restructured beyond what the rule understands")
-        return
-    lowered = ".lower()" in src or ".casefold()" in src
-    uppered = ".upper()" in src and re.search(r"search\(\w+\.upper\(\)", src.replace(" ", "")) is not None
-    for pat, line, flags in used:
-        prof = number_regex_profile(pat)
-        if prof is None or not prof["has_digits"]:
+    RE_M = ("match", "search", "fullmatch", "findall", "finditer")
+    RE_ = ("global", "re")
+
+    def compiled(node):
+        """(pattern, flags text) of the AST `re.compile(<str>[, flags])`"""
+        if isinstance(node, ast.Call) and ast.unparse(node.func) == "re.compile" and node.args and isinstance(node.args[0], ast.Constant) and isinstance(node.args[0].value, str):
+            return node.args[0].value, " ".join(ast.unparse(a) for a in node.args[1:]) + " ".join(ast.unparse(k.value) for k in node.keywords), node.lineno
+        return None
+
+    def pat_of(x, flags):
+        fl_ = " ".join(show(a) for a in flags)
+        if x[0] == "const" and isinstance(x[1], str):
+            return x[1], fl_, None
+        if x[0] == "meth" and x[1] == RE_ and x[2] == "compile" and x[3] and x[3][0][0] == "const" and isinstance(x[3][0][1], str):
+            return x[3][0][1], fl_ + " ".join(show(a) for a in x[3][1:]) + " ".join(show(v_) for _, v_ in x[4]), None
+        if x[0] == "attr" and (x[1] in (("param", "self"), ("param", "cls")) or (x[1][0] == "global" and x[1][1] in pkg.classes)):
+            _, node = pkg.resolve_attr("KROMEReaction" if x[1][0] == "param" else x[1][1], x[2])
+            c = compiled(node) if node is not None else None
+            return (c[0], c[1] + " " + fl_, c[2]) if c else None
+        if x[0] == "global":
+            for st in pkg.modules[KROME].body:
+                if isinstance(st, ast.Assign) and len(st.targets) == 1 and isinstance(st.targets[0], ast.Name) and st.targets[0].id == x[1]:
+                    c = compiled(st.value)
+                    return (c[0], c[1] + " " + fl_, c[2]) if c else None
+        return None
+
+    def of_line(x):
+        return any(isinstance(y, tuple) and y and y[0] in ("elem", "sub", "item") and any(z == ("param", "react_string") for z in walk(y)) for y in walk(x))
+    hits, unread = {}, []
+    for f in fl.facts:
+        if f.value is None:
             continue
-        icase = "IGNORECASE" in flags or "re.I" in flags or "(?i)" in pat
+        for x in walk(simp(f.value)):
+            if not (isinstance(x, tuple) and len(x) == 4 and x[0] == "call" and x[1] == ("global", "float") and len(x[2]) == 1):
+                continue
+            for y in walk(x[2][0]):
+                if not (isinstance(y, tuple) and len(y) == 5 and y[0] == "meth" and y[2] in RE_M):
+                    continue
+                if y[1] == RE_:
+                    if len(y[3]) < 2:
+                        continue
+                    pobj, subject, flags = y[3][0], y[3][1], y[3][2:] + tuple(v_ for _, v_ in y[4])
+                else:
+                    if not y[3]:
+                        continue
+                    pobj, subject, flags = y[1], y[3][0], ()
+                if not of_line(subject):
+                    continue
+                pt = pat_of(simp(pobj), flags)
+                if pt is None:
+                    unread.append(show(pobj)[:60])
+                    continue
+                cases = {z[2] for z in walk(subject) if isinstance(z, tuple) and len(z) == 5 and z[0] == "meth" and z[2] in ("lower", "casefold", "upper") and not z[3]}
+                hits.setdefault((pt[0], pt[1]), (pt[2] or f.line, y[2], cases))
+    if not hits:
+        ctx.unrec("R4", "KROME window parser", (KROME, fn.lineno), "the tmin/tmax branches were restructured beyond what the rule understands"
+                  + (f" (a regular expression that could not be read: {unread[0]})" if unread else ""))
+        return
+    for (pat, flags), (line, how, cases) in hits.items():
+        prof = number_regex_profile(pat)
+        key = f"KROME:window number extractor {pat!r}"
+        if prof is None or not prof["has_digits"]:
+            ctx.unrec("R4", key, (KROME, line), "cannot read what the regular expression applied to a temperature limit admits")
+            continue
+        anchored = how == "fullmatch" or re.search(r"(?<!\\)(\$|\\Z)\)*$", pat) is not None
+        icase = "IGNORECASE" in flags or re.search(r"\bre\.I\b", flags) is not None or "(?i)" in pat
+        lowered, uppered = bool(cases & {"lower", "casefold"}), "upper" in cases
         letters = set(prof["exp_letters"])
         if icase:
             letters |= {c.swapcase() for c in letters}
@@ -674,16 +1069,42 @@ def _krome_regex_extractor(ctx, pkg, fn):
         miss_l = need - letters
         miss_s = {"+", "-"} - prof["exp_sign"]
         ok = not miss_l and not miss_s
-        ctx.check(ok, "R4", f"KROME:window number extractor {pat!r}", (KROME, line),
+        if not ok and anchored:
+            ctx.ok("R4", key, (KROME, line), "the extractor is anchored at both ends: a spelling it does not admit is refused, not cut")
+            continue
+        ctx.check(ok, "R4", key, (KROME, line),
                   "the extractor admits every exponent spelling of a KROME temperature limit" if ok else
                   "the regular expression that picks the number out of a temperature limit does not admit "
                   + (f"the exponent letters {sorted(miss_l)}" if miss_l else "") + (" and " if miss_l and miss_s else "")
                   + (f"the exponent sign {sorted(miss_s)}" if miss_s else "")
                   + ": a limit such as 5.5E3 / 1.0e+01 is silently cut at the exponent (5.5 / 1.0) and the window guard is wrong",
-                  expected="[-+]?digits[.digits][(e|E|d|D)[-+]?digits]", found=f"exponent letters {sorted(prof['exp_letters'])}, exponent sign {sorted(prof['exp_sign'])}" + (" (subject lower-cased)" if lowered else ""))
-    ctx.unrec("R4", "KROME window parser:mapping", (KROME, fn.lineno),
-              "the restructured tmin/tmax handling (operator stripping, no-bound spellings, field -> attribute mapping) is not in a form this rule can decide") \
-        if all(o.outcome != "VIOLATION" for o in ctx.obs if o.rule == "R4" and "extractor" in o.key) else None
+                  expected="[-+]?digits[.digits][(e|E|d|D)[-+]?digits]", found=f"exponent letters {sorted(prof['exp_letters'])}, exponent sign {sorted(prof['exp_sign'])}"
+                  + (" (subject lower-cased)" if lowered else "") + (" (case ignored)" if icase else ""))
+    if all(o.outcome != "VIOLATION" for o in ctx.obs if o.rule == "R4" and "extractor" in o.key):
+        ctx.unrec("R4", "KROME window parser:mapping", (KROME, fn.lineno),
+                  "the restructured tmin/tmax handling (operator stripping, no-bound spellings, field -> attribute mapping) is not in a form this rule can decide")
+
+
+def _record_fields(pkg, fl, v):
+    """`Rec.make(line).field` -- Rec an immutable record type of the package (pymodel.records: NamedTuple), make a class method of it
+    that returns `cls(<values>)` -- is the value the constructor call binds to that field (the method is read like any small helper:
+    valueflow's inliner, with `cls` standing for the record type).  Everything else is left as it is."""
+    recs = pkg.records()
+    if not recs or not isinstance(v, tuple) or not v:
+        return v
+    v = tuple(_record_fields(pkg, fl, x) if isinstance(x, tuple) else x for x in v)
+    if v[0] == "attr" and isinstance(v[1], tuple) and len(v[1]) == 5 and v[1][0] == "meth" and v[1][1][0] == "global" and v[1][1][1] in recs and v[2] in recs[v[1][1][1]]:
+        name, fields = v[1][1][1], recs[v[1][1][1]]
+        callee = pkg.classes[name].methods.get(v[1][2]) if name in pkg.classes else None
+        if callee is not None and {ast.unparse(d) for d in callee.decorator_list} == {"classmethod"}:
+            inl = fl._inline(callee, v[1][3], dict(v[1][4]))
+            inl = simp(inl) if inl is not None else None
+            if inl is not None and inl[0] == "call" and inl[1] == ("param", "cls") and not any(a[0] == "star" for a in inl[2]) and all(k != "**" for k, _ in inl[3]):
+                given = dict(zip(fields, inl[2]))
+                given.update({k: x for k, x in inl[3] if k in fields})
+                if v[2] in given:
+                    return given[v[2]]
+    return v
 
 
 def _windows_unconditional(ctx, pkg):
@@ -691,34 +1112,85 @@ def _windows_unconditional(ctx, pkg):
     from ..valueflow import Flow
     for cls in ("UMISTReaction", "KIDAReaction", "LEEDSReaction", "UCLCHEMReaction", "Reaction"):
         pkg.method(cls, "_parse_string")
-        fn = pkg.folded(cls, "_parse_string", keep=KEEP)
+        fn = _parser(pkg, cls)
         file = pkg.cls(cls).file
         fl = Flow(fn, file)
         for attr in ("temp_min", "temp_max"):
             st = [f for f in fl.facts if f.kind == "attrstore" and f.target == attr]
             if not st:
-                if any(isinstance(c, ast.Call) and (ast.unparse(c.func) in ("setattr", "vars") or (isinstance(c.func, ast.Attribute) and c.func.attr in ("update", "__setattr__"))) for c in ast.walk(fn)):
+                # set indirectly, or by somebody the rule cannot read: a helper of the class that could not be put back, anything
+                # that is handed the instance
+                if any(isinstance(c, ast.Call) and (ast.unparse(c.func) in ("setattr", "vars") or (isinstance(c.func, ast.Attribute) and c.func.attr in ("update", "__setattr__"))
+                                                    or (isinstance(c.func, ast.Attribute) and isinstance(c.func.value, ast.Name) and c.func.value.id in ("self", "cls") and c.func.attr not in KEEP
+                                                        and pkg.resolve(cls, c.func.attr)[1] is not None)
+                                                    or any(isinstance(a, ast.Name) and a.id == "self" for a in list(c.args) + [k.value for k in c.keywords])) for c in ast.walk(fn)) \
+                        or any(isinstance(n, ast.Name) and n.id == "super" for n in ast.walk(fn)):
                     ctx.unrec("R4", f"{cls}:{attr} stored", (file, fn.lineno), f"{cls}._parse_string has no plain store into self.{attr} (attributes are set indirectly)")
                 else:
                     ctx.bad("R4", f"{cls}:{attr} stored", (file, fn.lineno), f"{cls}._parse_string never stores {attr}")
                 continue
-            v = simp(st[-1].value)
-            if v[0] == "unop" and v[1] in ("USub", "UAdd") and v[2][0] == "const" and isinstance(v[2][1], (int, float)):
-                v = ("const", -v[2][1] if v[1] == "USub" else v[2][1])        # a signed literal is a constant
-            inner = v[2][0] if v[0] == "call" and v[1] == ("global", "float") and len(v[2]) == 1 and not v[3] else None
-            while inner is not None and inner[0] == "meth" and inner[2] == "strip" and not inner[3]:
-                inner = inner[1]          # float() ignores surrounding blanks anyway
-            ok = inner is not None and (inner[0] in ("item", "sub", "elem") or (inner[0] == "phi" and cls == "UCLCHEMReaction"))
             key = f"{cls}:{attr} = float(field)"
-            if ok:
-                ctx.ok("R4", key, (file, st[-1].line), f"self.{attr} is float(<the field of the record>)")
-            elif any(isinstance(x, tuple) and x and x[0] in ("phi", "ifexp", "bool") for x in walk(v)) or v[0] == "const" or len(st) > 1:
-                # a value chosen by a condition / a constant / a second store: the positive evidence of a fallback
-                ctx.bad("R4", key, (file, st[-1].line),
+
+            def num(x):
+                """a numeric literal (signed literals included), else None"""
+                if x[0] == "unop" and x[1] in ("USub", "UAdd") and x[2][0] == "const" and isinstance(x[2][1], (int, float)) and not isinstance(x[2][1], bool):
+                    return -x[2][1] if x[1] == "USub" else x[2][1]
+                return x[1] if x[0] == "const" and isinstance(x[1], (int, float)) and not isinstance(x[1], bool) else None
+
+            def is_field(x):
+                """a piece cut from the line: an element / slice / unpacking target of (a view of) the parsed string"""
+                while x[0] == "meth" and x[2] in ("strip", "lstrip", "rstrip") and not x[3]:
+                    x = x[1]          # float() ignores surrounding blanks anyway
+                return x[0] in ("item", "sub", "elem")
+
+            def arms(x, conds=()):
+                """[(conditions, leaf)] of a value chosen by conditions; float(a if c else b) is float(a) if c else float(b)"""
+                x = simp(x)
+                if x[0] in ("phi", "ifexp"):
+                    return arms(x[2], conds + (x[1],)) + arms(x[3], conds + (x[1],))
+                if x[0] == "call" and x[1] == ("global", "float") and len(x[2]) == 1 and not x[3] and simp(x[2][0])[0] in ("phi", "ifexp"):
+                    i_ = simp(x[2][0])
+                    return arms(("call", x[1], (i_[2],), ()), conds + (i_[1],)) + arms(("call", x[1], (i_[3],), ()), conds + (i_[1],))
+                return [(conds, x)]
+
+            def kind(x):
+                if num(x) is not None:
+                    return "const"
+                if x[0] == "call" and x[1] == ("global", "float") and len(x[2]) == 1 and not x[3]:
+                    i_ = simp(x[2][0])
+                    return "field" if is_field(i_) else "const" if num(i_) is not None else "other"
+                return "other"
+
+            def on_content(c):
+                """the condition looks at the text of the very field the store converts (it is tested before float() sees it)"""
+                return any(isinstance(y, tuple) and y and y in leaf_fields for y in walk(c))
+            last = st[-1]
+            # every store of the attribute with the conditions that tell it from the others (guards shared by all of them -- the
+            # "not a blank line" test -- say nothing about which value is stored)
+            shared = set(last.guards)
+            for o_ in st:
+                shared &= set(o_.guards)
+            lv = [(tuple(simp(g_) for g_, pol in o_.guards if (g_, pol) not in shared) + cs, x) for o_ in st for cs, x in arms(_record_fields(pkg, fl, simp(o_.value)))]
+            kinds = [kind(x) for _, x in lv]
+            leaf_fields = {y for _, x in lv for y in walk(x) if isinstance(y, tuple) and y and y[0] in ("item", "sub", "elem")}
+            tests = [c for cs, _ in lv for c in cs]
+            found_ = "; ".join(dict.fromkeys(show(x)[:60] for _, x in lv))[:140]
+            if kinds == ["field"] and not tests:
+                ctx.ok("R4", key, (file, last.line), f"self.{attr} is float(<the field of the record>)")
+            elif any(k_ != "field" for k_ in kinds) and any(on_content(c) for c in tests):
+                # the field is looked at first and something else than float(<field>) is stored when the test fails: positive evidence
+                ctx.bad("R4", key, (file, last.line),
                         f"self.{attr} is not simply float(<field>): a limit the code does not like (fractional, exponent notation) silently becomes another value / 'unbounded', so the window guard is lost",
-                        expected="float(<field>)", found=show(v)[:100])
+                        expected="float(<field>)", found=found_ + " chosen by " + show([c for c in tests if on_content(c)][0])[:60])
+            elif kinds == ["const"] and not tests:
+                # the limit of the file is ignored: a constant is stored whatever the line says
+                ctx.bad("R4", key, (file, last.line), f"self.{attr} is a constant whatever the line says: the window of the file is lost", expected="float(<field>)", found=found_)
+            elif "field" in kinds and all(k_ in ("field", "const") for k_ in kinds) and cls == "UCLCHEMReaction" and not any(on_content(c) for c in tests):
+                # a constant on the arms chosen by something else than the text of the limit (UCLCHEM: the reaction type; WHICH
+                # constants is the freeze-out rule's business)
+                ctx.ok("R4", key, (file, last.line), f"self.{attr} is float(<the field of the record>) except where the reaction type overrides the window")
             else:
-                ctx.unrec("R4", key, (file, st[-1].line), f"cannot see that self.{attr} is float(<field of the record>): {show(v)[:100]}")
+                ctx.unrec("R4", key, (file, last.line), f"cannot see that self.{attr} is float(<field of the record>): {found_}")
 
 
 def _replace_chain(x):
@@ -743,10 +1215,19 @@ def _krome_window_stores(ctx, pkg, fn):
     # (for / functools.reduce) unrolled, `key in TABLE` + setattr(self, TABLE[key], ..) spelled as the chain of plain stores
     def res(name):
         _, f = pkg.resolve("KROMEReaction", name)
-        return pkg.folded("KROMEReaction", name, keep=KEEP) if f is not None and name.startswith("_") and not name.startswith("__") and name not in KEEP else None
-    fl = Flow(pkg.folded("KROMEReaction", "_parse_string", keep=KEEP), KROME, resolver=res)
+        return _parser(pkg, "KROMEReaction", name) if f is not None and name.startswith("_") and not name.startswith("__") and name not in KEEP else None
+    # (small pure module-level helpers called by their bare name are read as the expressions they return)
+    fl = Flow(_parser(pkg, "KROMEReaction"), KROME, resolver=res, func_resolver=lambda name: pkg.functions.get((KROME, name)), raise_arms=True)
     want_ops = {"<", ">", ".LE.", ".GE.", ".LT.", ".GT."}
     want_none = {"N", "NONE", "N/A", "NO", ""}
+    # (a float() inside try/except may leave the no-bound words to the handler; helpers still called through self / setattr with a
+    # computed name may store what the rule does not see)
+    has_try = any(isinstance(n, ast.Try) for n in ast.walk(fl.func))
+    hidden = any(isinstance(c, ast.Call) and ((isinstance(c.func, ast.Name) and c.func.id == "setattr")
+                                              or (isinstance(c.func, ast.Attribute) and isinstance(c.func.value, ast.Name) and c.func.value.id in ("self", "cls")
+                                                  and c.func.attr not in KEEP and pkg.resolve("KROMEReaction", c.func.attr)[1] is not None and res(c.func.attr) is None))
+                 for c in ast.walk(fl.func))
+    ctx.__dict__["_c06_krome_flow"] = fl
     stores = [f for f in fl.facts if f.kind == "attrstore" and f.target in ("temp_min", "temp_max") and f.extra.get("obj") == ("param", "self")]
     if not stores:
         return None
@@ -786,7 +1267,13 @@ def _krome_window_stores(ctx, pkg, fn):
                  and any(isinstance(y, tuple) and len(y) == 5 and y[0] == "meth" and y[2] == "split" for y in walk(pos_of(x)[0]))}
         paired = [x for x in cands if pos_of(x)[1] == kp[1]]
         if len(paired) != 1:
-            if cands and not paired:
+            def shifted(pos):
+                """the position is the keyword's own position plus / minus a non-zero constant: a field of ANOTHER column, understood"""
+                if kp[1][0] != "loop" or not (isinstance(pos, tuple) and len(pos) == 4 and pos[0] == "binop" and pos[1] in ("Add", "Sub")):
+                    return False
+                a_, b_ = (pos[2], pos[3]) if pos[3][0] == "const" else (pos[3], pos[2]) if pos[1] == "Add" else (None, None)
+                return a_ is not None and b_[0] == "const" and isinstance(b_[1], int) and b_[1] != 0 and a_[0] in ("idx", "elem") and len(a_) == 3 and a_[2] == kp[1][1]
+            if cands and not paired and all(shifted(pos_of(x)[1]) for x in cands):
                 ctx.bad("R4", f"KROME:{which}:field", W, f"self.{f.target} is decoded from {show(sorted(cands, key=repr)[0])[:80]}, which is not the field at the position of the keyword {which!r}",
                         found=show(sorted(cands, key=repr)[0])[:100])
             else:
@@ -836,7 +1323,9 @@ def _krome_window_stores(ctx, pkg, fn):
             return None
         base, reps = _replace_chain(v[2][0])
         if base != val:
-            if any(isinstance(x, tuple) and x and x[0] in ("carried", "after", "acc", "unknown") for x in walk(base)) or not reps:
+            # another field of the line (understood, wrong) / anything else (a helper that could not be read, a value carried
+            # around a loop ...: not understood)
+            if base not in cands or any(isinstance(x, tuple) and x and x[0] in ("carried", "after", "acc", "unknown") for x in walk(base)):
                 return None
             ctx.bad("R4", f"KROME:{which}:field", W, f"self.{f.target} is decoded from {show(base)[:80]}, not from the field paired with the keyword {which!r}", found=show(base)[:100])
             continue
@@ -864,13 +1353,16 @@ def _krome_window_stores(ctx, pkg, fn):
         kk = f"KROME:{which}:no-bound spellings"
         if want_none <= nones:
             ctx.ok("R4", kk, W, "N / NONE / N/A / NO / empty keep the default (unbounded)")
-        elif seen_test or not other_tests:
+        elif (seen_test or not other_tests) and not has_try:
             ctx.bad("R4", kk, W, "N / NONE / N/A / NO / empty must keep the default (unbounded): a spelling that is not excluded reaches float()", expected=str(sorted(want_none)), found=str(sorted(nones)))
         else:
             ctx.unrec("R4", kk, W, "the no-bound spellings are tested in a way this rule cannot decide: " + "; ".join(show(c)[:60] for c in other_tests)[:160])
     if decided:
         for which in ("tmin", "tmax"):
             if which not in seen and not any(o.rule == "R4" and o.key.startswith(f"KROME:{which}:") for o in ctx.obs):
+                if hidden:
+                    ctx.unrec("R4", f"KROME:{which}:target", (KROME, fn.lineno), f"no plain store of the {which} column is visible (attributes are also set indirectly)")
+                    continue
                 ctx.bad("R4", f"KROME:{which}:target", (KROME, fn.lineno), f"the {which} column is never stored into self.temp_{which[1:]}")
     return decided
 
@@ -883,7 +1375,7 @@ def _r4(ctx):
     found = _krome_window_stores(ctx, pkg, fn)
     if found is None:
         # no plain store / not float(<replace chain over the field>): a number extractor (regular expression) or something else
-        _krome_regex_extractor(ctx, pkg, fn)
+        _krome_regex_extractor(ctx, pkg, fn, ctx.__dict__["_c06_krome_flow"])
         return
     ctx.floor("R4", "KROME window stores", found, 2, (KROME, fn.lineno))
     # defaults
@@ -905,7 +1397,7 @@ def _uclchem_freeze(ctx, pkg):
     (0, 30), whatever the arrangement (the fields overwritten before float(), a conditional expression, an if/else around the
     stores).  Decided by partial evaluation of the stored values under `reaction_type == UCLCHEM_FR`."""
     pkg.method("UCLCHEMReaction", "_parse_string")
-    ufn = pkg.folded("UCLCHEMReaction", "_parse_string", keep=KEEP)
+    ufn = _parser(pkg, "UCLCHEMReaction")
     ctx.saw(UCL, "UCLCHEMReaction._parse_string")
     ufl = Flow(ufn, UCL)
     W = (UCL, ufn.lineno)
@@ -933,7 +1425,11 @@ def _uclchem_freeze(ctx, pkg):
             got[attr] = v[1]
         else:
             unread.append(f"self.{attr} = {show(v)[:60]}")
-    if not atoms and stores and all(simp(f.value)[0] == "call" and simp(f.value)[1] == ("global", "float") for f in stores):
+    elsewhere = [m_ for m_, node in pkg.cls("UCLCHEMReaction").methods.items() if m_ != "_parse_string" and pkg.resolve("UCLCHEMReaction", "_parse_string")[0] == "UCLCHEMReaction"
+                 and any(isinstance(n, ast.Attribute) and isinstance(n.ctx, ast.Store) and n.attr in ("temp_min", "temp_max") for n in ast.walk(node))]
+    if not atoms and stores and elsewhere:
+        ctx.unrec("R4", "UCLCHEM:FREEZE window", W, f"the window is also stored outside _parse_string ({', '.join(elsewhere)}): where freeze-out reactions get (0, 30) is not decided here")
+    elif not atoms and stores and all(simp(f.value)[0] == "call" and simp(f.value)[1] == ("global", "float") for f in stores):
         ctx.bad("R4", "UCLCHEM:FREEZE window", W, "no store of the temperature window depends on the reaction type being UCLCHEM_FR: freeze-out reactions keep the window of the file "
                                                   "instead of (0, 30)", expected="lt, ut = 0, 30 for UCLCHEM_FR", found="; ".join(show(simp(f.value))[:40] for f in stores))
     elif unread or not atoms:
@@ -1174,4 +1670,64 @@ BENIGN += [
     {"name": "pairs-list-walked-by-index", "file": T, "old": _STMT_COMP,
      "new": '        pairs = list(zip(tranges, rateexprs))\n        rateassign = []\n        for ridx in range(len(pairs)):\n            trange, rateexpr = pairs[ridx]\n'
             '            stmt = f"{rate_sym}[{ridx}] = {rateexpr};"\n            rateassign.append(f"if ({trange}) {{\\n{stmt}\\n}}" if trange else stmt)\n'},
+]
+# ---- wave 3: the window written to the package's own text format (R7); number-extracting regular expressions found by role (R4)
+RFILE = "naunet/reactions/reaction.py"
+_K_LIMIT_RE = ('    _limit_number = re.compile(r"[-+]?\\d+\\.?\\d*(?:[eEdD]%s\\d+)?")\n\n'
+               '    def _limit(self, text, default):\n        if text.upper() in ("N", "NONE", "N/A", "NO", ""):\n            return default\n'
+               '        found = self._limit_number.search(text)\n        if found is None:\n            raise ValueError(text)\n'
+               '        return float(found.group().replace("d", "e").replace("D", "e"))\n\n' + _K_CLS)
+_K_ARMS_RE = ('                elif key == "tmin":\n                    self.temp_min = self._limit(value, self.temp_min)\n'
+              '                elif key == "tmax":\n                    self.temp_max = self._limit(value, self.temp_max)\n')
+MUTANTS += [
+    {"name": "native-writer-bounds-in-exponent-notation", "file": RFILE, "old": 'f"{self.temp_max:9.2f}"', "new": 'f"{self.temp_max:9.2e}"', "rules": ["R7"]},
+    {"name": "native-writer-bounds-general-format-by-helper", "edits": [
+        {"file": RFILE, "old": "class Reaction(Component):\n", "new": 'def _column(value, width):\n    return "%9.6g" % value if abs(value) >= 1e6 else "%9.2f" % value\n\n\nclass Reaction(Component):\n'},
+        {"file": RFILE, "old": 'f"{self.temp_min:9.2f}"', "new": '_column(self.temp_min, 9)'}], "rules": ["R7"]},
+    {"name": "krome-limit-by-regex-helper-no-plus-in-exponent", "edits": [
+        {"file": KROME, "old": _K_CLS, "new": _K_LIMIT_RE % "-?"}, {"file": KROME, "old": _K_ARMS_OLD, "new": _K_ARMS_RE}], "rules": ["R4"]},
+]
+BENIGN += [
+    {"name": "native-writer-bounds-by-str-format", "file": RFILE, "old": 'f"{self.temp_min:9.2f}"', "new": '"{:9.2f}".format(self.temp_min)'},
+    {"name": "native-writer-bounds-by-percent-format", "file": RFILE, "old": 'f"{self.temp_max:9.2f}"', "new": '"%9.2f" % self.temp_max'},
+]
+# ---- wave 3: statements collected as small objects first (a dataclass with a method that prints the statement)
+_STMT_CLASS = ('@dataclass\nclass _Assignment:\n    symbol: str\n    index: int\n    window: str\n    expr: str\n\n    def text(self) -> str:\n'
+               '        plain = f"{self.symbol}[{self.index}] = {self.expr};"\n        if not self.window:\n            return plain\n'
+               '        return %s\n\n\nclass TemplateLoader:\n')
+_STMT_OBJECTS = ('        items = [_Assignment(rate_sym, ridx, trange, rateexpr) for ridx, (trange, rateexpr) in enumerate(zip(tranges, rateexprs))]\n'
+                 '        rateassign = [item.text() for item in items]\n')
+MUTANTS += [
+    {"name": "statement-objects-guard-closed-before-assignment", "edits": [
+        {"file": T, "old": "class TemplateLoader:\n", "new": _STMT_CLASS % '"\\n".join([f"if ({self.window}) {{", "}", plain])'},
+        {"file": T, "old": _STMT_COMP, "new": _STMT_OBJECTS}], "rules": ["R1"]},
+    {"name": "statement-objects-index-one-late", "edits": [
+        {"file": T, "old": "class TemplateLoader:\n", "new": _STMT_CLASS % '"\\n".join([f"if ({self.window}) {{", plain, "}"])'},
+        {"file": T, "old": _STMT_COMP, "new": _STMT_OBJECTS.replace("rate_sym, ridx, trange", "rate_sym, ridx + 1, trange")}], "rules": ["R1"]},
+]
+BENIGN += [
+    {"name": "statements-as-dataclass-objects", "edits": [
+        {"file": T, "old": "class TemplateLoader:\n", "new": _STMT_CLASS % '"\\n".join([f"if ({self.window}) {{", plain, "}"])'},
+        {"file": T, "old": _STMT_COMP, "new": _STMT_OBJECTS}]},
+]
+# ---- wave 3: no counter at the top -- the assignments are numbered when they are built, then zipped with the guards
+_STMT_ZIPPED = ('        assigns = [f"{rate_sym}[{ridx}] = {rateexpr};" for ridx, rateexpr in enumerate(%s)]\n'
+                '        rateassign = [f"if ({trange}) {{\\n{assign}\\n}}" if trange else assign for trange, assign in zip(tranges, assigns)%s]\n')
+MUTANTS += [
+    {"name": "zipped-assignments-guarded-only", "file": T, "old": _STMT_COMP, "new": _STMT_ZIPPED % ("rateexprs", " if trange"), "rules": ["R1"]},
+    {"name": "zipped-assignments-numbered-from-one", "file": T, "old": _STMT_COMP, "new": (_STMT_ZIPPED % ("rateexprs", "")).replace("{ridx}", "{ridx + 1}"), "rules": ["R1"]},
+]
+BENIGN += [
+    {"name": "zipped-assignments-numbered-when-built", "file": T, "old": _STMT_COMP, "new": _STMT_ZIPPED % ("rateexprs", "")},
+    {"name": "thermal-rates-by-methodcaller", "edits": [
+        {"file": T, "old": "from tqdm import tqdm\n", "new": "from tqdm import tqdm\nfrom operator import methodcaller\n"},
+        {"file": T, "old": "rateexprs = [reac.rateexpr() for reac in reactions]", "new": 'rateexprs = list(map(methodcaller("rateexpr"), reactions))'}]},
+]
+# ---- wave 3: a guard builder may return an empty guard only because the bounds are absent
+_GUARD_HELPER = ('    @staticmethod\n    def _guard(r):\n%s        parts = []\n        if r.temp_min > 0:\n            parts.append(f"Tgas>={r.temp_min}")\n'
+                 '        if r.temp_max > 0:\n            parts.append(f"Tgas<{r.temp_max}")\n        return " && ".join(parts)\n\n    def _assign_rates(\n')
+MUTANTS += [
+    {"name": "guard-builder-skips-flagged-reactions", "edits": [
+        {"file": T, "old": "    def _assign_rates(\n", "new": _GUARD_HELPER % '        if getattr(r, "constant_rate", False):\n            return ""\n'},
+        {"file": T, "old": "        " + _LT + "\n        " + _UT + "\n" + _TR, "new": "        tranges = [self._guard(r) for r in reactions]\n"}], "rules": ["R1"]},
 ]
